@@ -6,6 +6,7 @@
                          2k-p > 65535 (outside the guard of the theorem)
      msp.sequence  ( maxlen seq k p perm? rc )  -> ( ( bucket exts piece ) .. ) | !     perm? = ( ) | ( perm )
      chk.msp       ( k rc ( ( read ( ( bucket exts piece ) .. ) ) .. ) ) -> 1
+     chk.msp.unguarded   the same checker, name used by the harness for the class 2k-p > 65535
    [scores] lists the caller's score of the p-mer at every position 0..|seq|-p; the model's score function is
    the lookup of a p-mer (by its base-4 rank) in that list, 0 for p-mers that do not occur. *)
 From Coq Require Import NArith List Bool Arith String.
@@ -90,7 +91,7 @@ Definition d_scan (op : string) (v : val) : option val :=
         end
     | _ => None
     end
-  else if String.eqb op "chk.msp" then
+  else if String.eqb op "chk.msp" || String.eqb op "chk.msp.unguarded" then
     match v with
     | VL [VN k; VN r; VL ros] =>
         match omap v_read_out ros with
@@ -103,4 +104,5 @@ Definition d_scan (op : string) (v : val) : option val :=
 
 Definition is_scan_op (op : string) : bool :=
   String.eqb (substring 0 5 op) "scan." || String.eqb (substring 0 4 op) "msp." ||
-  String.eqb op "chk.scan" || String.eqb op "chk.scan.unguarded" || String.eqb op "chk.msp".
+  String.eqb op "chk.scan" || String.eqb op "chk.scan.unguarded" || String.eqb op "chk.msp" ||
+  String.eqb op "chk.msp.unguarded".
